@@ -4,6 +4,10 @@
 //! trusted: HmacEngine is a stub that records key and the concatenation of its inputs in ghost fields (HmacEngine::<Sha256>::new -> HmacEngine::new); Hmac::from_engine(..).to_byte_array() is the uninterpreted hmac_sha256(key, data); gen_um_from_shared_secret is the uninterpreted um_of; fixed_time_eq is a stub (equal lengths required, result = equality of the bytes)
 //! trusted: R8: `&a[lo..hi]` / `&a[..hi]` on arrays -> arr_range (the bytes lo..hi), `&mut a[lo..hi]` -> arr_range_mut (mutable-reference prophecy: the array afterwards is the old one with lo..hi replaced by what the slice holds at the end), <[u8]>::copy_from_slice is vstd's, `x.to_be_bytes()` -> u32_to_be_bytes, `u32::from_be_bytes(s.try_into().unwrap())` -> u32_from_be_slice (be32 an uninterpreted bijection), `&x` where x is already a slice reference -> x
 //! trusted: assume_specification for core::cmp::max / core::cmp::min (std definitions): present in every unit so that a change that introduces them is verified instead of being rejected by the tool
+//! trusted: build_unencrypted_failure_packet whole: VecWriter is a skeleton over its Vec; <u16 as Writeable>::write appends the two big-endian bytes and never fails on a VecWriter (be16 uninterpreted); update_attribution_data is a stub (attribution data present afterwards, failure data untouched; the update itself is under contract in this unit); update_fail_htlc_wire_len is the uninterpreted wire_len(data length, attribution present); R8: `&[0; 32]` -> 32 zero bytes, `&v[lo..]` / `&v[lo..hi]` / `v[..32].copy_from_slice(..)` on the Vec through vec_suffix / vec_range / vec_range_mut (prophecy as for arrays)
+//! trusted: R15 (deep slices): process_onion_failure_inner: the legacy-HMAC test (`continue` written as `return false`), the length test in front of everything, `attributable_hop_count` and the position handed to verify (capture); decode_fulfill_attribution_data: the same count, the `take(..)` bound and the position; `!=` between byte slices -> slice_eq wrapper
+//! assume: a failure's data fits a u16 length with its two-byte code (failure_data.len() + 2 <= 65535; LDK's own failure data is at most a channel_update), and the update_fail_htlc carrying the padded packet with attribution data fits a Lightning message (LDK's debug_assert, stated over the uninterpreted wire length)
+//! plemma: C14 lemma_built_failure_is_authentic: a failure packet built by a hop passes the sender's HMAC test under the same shared secret
 //! plemma: C14 lemma_added_hmacs_verify: after a hop has added its HMACs, the sender's check succeeds for that hop at every position 0..19 and reports the hold time the hop wrote
 use vstd::prelude::*;
 verus! {
@@ -258,6 +262,205 @@ impl AttributionData {
     self.add_hmacs(shared_secret, message); self.hold_times[..HOLD_TIME_LEN].copy_from_slice(&hold_time_bytes);
 //@end
 }
+
+// ---- failure packets: what a hop builds and what the sender checks ----
+#[derive(Debug)] pub struct Error {}
+pub struct VecWriter(pub Vec<u8>);
+pub uninterp spec fn be16(x: u16) -> Seq<u8>;
+#[verifier::external_body] pub broadcast proof fn ax_be16(x: u16) ensures (#[trigger] be16(x)).len() == 2 {}
+pub trait Writeable { fn write(&self, w: &mut VecWriter) -> (r: Result<(), Error>); }
+impl Writeable for u16 { #[verifier::external_body] fn write(&self, w: &mut VecWriter) -> (r: Result<(), Error>) ensures r is Ok, final(w).0@ == old(w).0@ + be16(*self) { unimplemented!() } }
+pub struct LocalHTLCFailureReason { pub code: u16 }
+impl LocalHTLCFailureReason { #[verifier::external_body] pub fn failure_code(&self) -> (r: u16) ensures r == self.code { unimplemented!() } }
+pub struct OnionErrorPacket { pub data: Vec<u8>, pub attribution_data: Option<AttributionData> }
+pub uninterp spec fn wire_len(data_len: int, with_attribution: bool) -> int;
+#[verifier::external_body] pub fn update_fail_htlc_wire_len(onion_error: &OnionErrorPacket) -> (r: usize)
+    ensures r == wire_len(onion_error.data@.len() as int, onion_error.attribution_data is Some) { unimplemented!() }
+//@const lightning/src/ln/peer_channel_encryptor.rs LN_MAX_MSG_LEN
+// get_or_insert(AttributionData::new()) + update: attribution data is present afterwards, the failure data untouched (u14b states the same; the update itself is under contract above)
+#[verifier::external_body] pub fn update_attribution_data(onion_error_packet: &mut OnionErrorPacket, shared_secret: &[u8], hold_time: u32)
+    ensures final(onion_error_packet).data == old(onion_error_packet).data, final(onion_error_packet).attribution_data is Some { unimplemented!() }
+#[verifier::external_body] pub fn zero32() -> (r: [u8; 32]) ensures r@ == Seq::new(32, |i: int| 0u8) { [0u8; 32] }
+#[verifier::external_body] pub fn vec_suffix(v: &Vec<u8>, lo: usize) -> (s: &[u8]) requires lo <= v@.len() ensures s@ == v@.subrange(lo as int, v@.len() as int) { &v[lo..] }
+#[verifier::external_body] pub fn vec_range(v: &Vec<u8>, lo: usize, hi: usize) -> (s: &[u8]) requires lo <= hi <= v@.len() ensures s@ == v@.subrange(lo as int, hi as int) { &v[lo..hi] }
+#[verifier::external_body] pub fn vec_range_mut(v: &mut Vec<u8>, lo: usize, hi: usize) -> (s: &mut [u8])
+    requires lo <= hi <= old(v)@.len()
+    ensures s@ == old(v)@.subrange(lo as int, hi as int), final(s)@.len() == s@.len(),
+        final(v)@ == old(v)@.subrange(0, lo as int) + final(s)@ + old(v)@.subrange(hi as int, old(v)@.len() as int)
+{ &mut v[lo..hi] }
+// BOLT 4 failure packet before encryption: hmac(32) || failure_len(2) || code(2) || data || pad_len(2) || pad
+pub open spec fn failure_body(code: u16, data: Seq<u8>, pad_len: int) -> Seq<u8> {
+    be16((2 + data.len()) as u16) + be16(code) + data + be16(pad_len as u16) + Seq::new(pad_len as nat, |i: int| 0u8)
+}
+//@extract lightning/src/ln/onion_utils.rs :: fn build_unencrypted_failure_packet
+//@rw R5
+    HmacEngine::<Sha256>::new(
+//@with
+    HmacEngine::new(
+//@rw R8
+    gen_um_from_shared_secret(&shared_secret)
+//@with
+    gen_um_from_shared_secret(shared_secret)
+//@rw R8
+    &[0; 32]
+//@with
+    arr_range(&zero32(), 0, 32)
+//@rw R8
+    &failure_data[..]
+//@with
+    failure_data
+//@rw R8
+    &writer.0[$lo:seq..]
+//@with
+    vec_suffix(&writer.0, $lo)
+//@rw R8
+    writer.0[..32].copy_from_slice(&hmac)
+//@with
+    vec_range_mut(&mut writer.0, 0, 32).copy_from_slice(arr_range(&hmac, 0, 32))
+//@ret packet
+//@requires
+    shared_secret@.len() == 32, failure_data@.len() + 2 <= 0xffff, min_packet_len <= 0xffff,
+    wire_len(32 + 2 + 2 + cmp_max_int(failure_data@.len() as int, min_packet_len as int - 2) + 2, true) <= 65535,
+//@ensures P C14 a-failure-packet-is-the-hmac-under-the-hops-um-key-over-length-code-data-and-padding-and-is-padded-to-the-minimum-length
+    ({ let pad = if min_packet_len as int >= 2 + failure_data@.len() { min_packet_len as int - 2 - failure_data@.len() } else { 0 };
+       let body = failure_body(failure_reason.code, failure_data@, pad);
+       packet.data@ == hmac_sha256(um_of(shared_secret@), body)@ + body }),
+    packet.data@.len() >= 32 + 4 + min_packet_len, packet.attribution_data is Some,
+//@at body_start
+    broadcast use ax_be16;
+    let ghost pad = if min_packet_len as int >= 2 + failure_data@.len() { min_packet_len as int - 2 - failure_data@.len() } else { 0 };
+    let ghost body = failure_body(failure_reason.code, failure_data@, pad);
+//@at before `writer.0.resize`
+    let ghost pre = writer.0@;
+    let ghost head = be16((2 + failure_data@.len()) as u16) + be16(failure_reason.code) + failure_data@ + be16(pad as u16);
+    proof { assert(pad_len == pad); assert(pre =~= Seq::new(32, |i: int| 0u8) + head); }
+//@at before `let um = gen_um_from_shared_secret`
+    proof {
+        let w = writer.0@;
+        assert(w.len() == 32 + head.len() + pad);
+        assert(w.subrange(0, pre.len() as int) == pre);
+        assert(body =~= head + Seq::new(pad as nat, |i: int| 0u8));
+        assert forall|i: int| 0 <= i < body.len() implies w.subrange(32, w.len() as int)[i] == body[i] by {
+            if i < head.len() { assert(w[32 + i] == w.subrange(0, pre.len() as int)[32 + i]); }
+        }
+        assert(w.subrange(32, w.len() as int) =~= body);
+    }
+//@at before `let mut packet = OnionErrorPacket`
+    proof { assert(writer.0@ =~= hmac@ + body); }
+//@mutant failure_code_written_before_the_length
+    (failure_len as u16).write(&mut writer).unwrap(); failure_reason.failure_code().write(&mut writer).unwrap();
+//@with
+    failure_reason.failure_code().write(&mut writer).unwrap(); (failure_len as u16).write(&mut writer).unwrap();
+//@mutant hmac_covers_its_own_slot
+    hmac.input(&writer.0[32..]);
+//@with
+    hmac.input(&writer.0[0..]);
+//@mutant padding_counts_the_code_twice
+    let pad_len = min_packet_len.saturating_sub(failure_len);
+//@with
+    let pad_len = min_packet_len.saturating_sub(failure_len + 2);
+//@end
+pub open spec fn cmp_max_int(a: int, b: int) -> int { if a >= b { a } else { b } }
+
+// ---- the sender's side (process_onion_failure_inner / decode_fulfill_attribution_data) ----
+//@extract lightning/src/ln/onion_utils.rs :: fn process_onion_failure_inner
+//@slice R15
+    let mut hmac = HmacEngine::<Sha256>::new(&um); hmac.input($cov:seq); if $mismatch:cond { continue; }
+//@with
+    fn failure_is_authentic_for_this_hop(um: [u8; 32], encrypted_packet: &OnionErrorPacket) -> bool {
+        let mut hmac = HmacEngine::new(&um); hmac.input($cov);
+        proof { assert(hmac.data@ =~= encrypted_packet.data@.subrange(32, encrypted_packet.data@.len() as int));
+                assert(hmac_sha256(um, hmac.data@)@.subrange(0, 32) =~= hmac_sha256(um, hmac.data@)@); }
+        if $mismatch { return false; } true }
+//@rw R8
+    &encrypted_packet.data[$lo:seq..]
+//@with
+    vec_suffix(&encrypted_packet.data, $lo)
+//@rw R8
+    &Hmac::from_engine(hmac).to_byte_array() != &encrypted_packet.data[..32]
+//@with
+    !slice_eq(arr_range(&Hmac::from_engine(hmac).to_byte_array(), 0, 32), vec_range(&encrypted_packet.data, 0, 32))
+//@ret r
+//@requires
+    encrypted_packet.data@.len() >= 32,
+//@ensures P C14,C03 a-failure-is-attributed-to-a-hop-only-if-its-first-32-bytes-are-the-hmac-under-that-hops-um-key-over-the-rest-of-the-packet
+    r == (hmac_sha256(um, encrypted_packet.data@.subrange(32, encrypted_packet.data@.len() as int))@ == encrypted_packet.data@.subrange(0, 32)),
+//@mutant failure_hmac_checked_over_the_whole_packet
+    hmac.input(&encrypted_packet.data[32..]);
+//@with
+    hmac.input(&encrypted_packet.data[31..]);
+//@end
+#[verifier::external_body] pub fn slice_eq(a: &[u8], b: &[u8]) -> (r: bool) ensures r == (a@ == b@) { a == b }
+// (P) what a hop builds passes the sender's check under the same shared secret
+pub proof fn lemma_built_failure_is_authentic(ss: Seq<u8>, code: u16, data: Seq<u8>, pad: int)
+    requires pad >= 0
+    ensures ({ let body = failure_body(code, data, pad); let pkt = hmac_sha256(um_of(ss), body)@ + body;
+               hmac_sha256(um_of(ss), pkt.subrange(32, pkt.len() as int))@ == pkt.subrange(0, 32) })
+{
+    let body = failure_body(code, data, pad); let h = hmac_sha256(um_of(ss), body)@; let pkt = h + body;
+    assert(h.len() == 32);
+    assert(pkt.subrange(32, pkt.len() as int) =~= body);
+    assert(pkt.subrange(0, 32) =~= h);
+}
+//@extract lightning/src/ln/onion_utils.rs :: fn process_onion_failure_inner
+//@slice R15
+    if encrypted_packet.data.len() < $min:seq { return permanent_failure(); }
+//@with
+    fn failure_too_short_to_attribute(encrypted_packet: &OnionErrorPacket) -> bool { if encrypted_packet.data.len() < $min { return true; } false }
+//@ret r
+//@ensures P C14,C03 a-failure-packet-too-short-to-hold-an-hmac-is-given-up-on-before-any-slice-of-it-is-taken
+    !r ==> encrypted_packet.data@.len() >= 32,
+//@mutant short_failure_packets_let_through
+    encrypted_packet.data.len() < 32
+//@with
+    encrypted_packet.data.len() < 31
+//@end
+//@extract lightning/src/ln/onion_utils.rs :: fn process_onion_failure_inner
+//@capture R15
+    if route_hop_idx < attributable_hop_count { let position = $pos:seq; let res = attribution_data.verify( &encrypted_packet.data, shared_secret.as_ref(), position, );
+//@slice R15
+    let attributable_hop_count = $n:seq;
+//@with
+    fn position_a_failure_hop_is_verified_at(path_hops_len: usize, route_hop_idx: usize) -> Option<usize> {
+        let attributable_hop_count = $n;
+        if route_hop_idx < attributable_hop_count { let position = $pos; Some(position) } else { None } }
+//@rw R5
+    path.hops.len()
+//@with
+    path_hops_len
+//@ret r
+//@ensures P C14 hop-i-of-a-path-is-verified-at-the-position-counted-from-the-last-attributable-hop-and-hops-beyond-the-twentieth-are-not-verified
+    r == (if route_hop_idx < 20 && route_hop_idx < path_hops_len { Some(((if path_hops_len < 20 { path_hops_len } else { 20 }) - route_hop_idx - 1) as usize) } else { None::<usize> }),
+    r is Some ==> r->Some_0 < 20,
+//@mutant failure_position_counted_from_the_first_hop
+    let position = attributable_hop_count - route_hop_idx - 1;
+//@with
+    let position = route_hop_idx;
+//@end
+//@extract lightning/src/ln/onion_utils.rs :: mod fuzzy_onion_utils :: fn decode_fulfill_attribution_data
+//@capture R15
+    let position = $pos:seq; let res = attribution_data.verify(&Vec::new(), shared_secret.as_ref(), position);
+//@capture R15
+    in shared_secrets.enumerate().take($take:seq)
+//@slice R15
+    let attributable_hop_count = $n:seq;
+//@with
+    fn position_a_fulfill_hop_is_verified_at(path_hops_len: usize, route_hop_idx: usize) -> Option<usize> {
+        let attributable_hop_count = $n;
+        if route_hop_idx < $take { let position = $pos; Some(position) } else { None } }
+//@rw R5
+    path.hops.len()
+//@with
+    path_hops_len
+//@ret r
+//@ensures P C14 hold-times-of-a-fulfilled-payment-are-verified-hop-by-hop-at-the-position-counted-from-the-last-attributable-hop
+    r == (if route_hop_idx < 20 && route_hop_idx < path_hops_len { Some(((if path_hops_len < 20 { path_hops_len } else { 20 }) - route_hop_idx - 1) as usize) } else { None::<usize> }),
+    r is Some ==> r->Some_0 < 20,
+//@mutant fulfill_position_off_by_one
+    let position = attributable_hop_count - route_hop_idx - 1;
+//@with
+    let position = attributable_hop_count - route_hop_idx;
+//@end
 // (P) whatever a hop adds verifies: for every position the sender might check this hop at, the stored HMAC is the recomputed one and the
 // reported hold time is the one the hop wrote (s0: attribution data as received and shifted right; s1: after update)
 pub proof fn lemma_added_hmacs_verify(s0: AttributionData, s1: AttributionData, ss: Seq<u8>, message: Seq<u8>, hold_time: u32, position: int)
